@@ -12,9 +12,11 @@ struct QuadC {
   GridC g;
   SplineC m1, m2;
   i64 o1 = 0, o2 = 0, n = 1, type = 2, fden = 1, distinct = 0;  // distinct: m2 lives on an equal grid in a separately built object
+  i64 stateless = 0;  // 1..3: the weight is one of three EMPTY functor types (fixed polynomials) instead of a capturing lambda
+  i64 prelude = 0;    // first integrate the same functor type on ANOTHER grid with as many points, destroy it, then build the real one
   std::vector<i64> f;  // weight polynomial coefficients f_k / fden, degree = f.size()-1
   template <class A>
-  void io(A &x) { x("g", g); x("m1", m1); x("m2", m2); x("o1", o1); x("o2", o2); x("n", n); x("type", type); x("fden", fden); x("f", f); x("distinct", distinct); }
+  void io(A &x) { x("g", g); x("m1", m1); x("m2", m2); x("o1", o1); x("o2", o2); x("n", n); x("type", type); x("fden", fden); x("f", f); x("distinct", distinct); x("stateless", stateless); x("prelude", prelude); }
 };
 
 // independent n-point Gauss-Legendre rule on [-1,1]: Newton iteration on the Legendre recurrence (long double)
@@ -40,8 +42,43 @@ static void gauss_rule(size_t n, std::vector<long double> &t, std::vector<long d
   }
 }
 
+// stateless weights: empty functor types (whatever the library memoises per weight TYPE cannot tell two uses apart)
+struct WA { template <class T> T operator()(const T &x) const { return static_cast<T>(1) + x * x; } };                                   // 1 + x^2
+struct WB { template <class T> T operator()(const T &x) const { return x; } };                                                            // x
+struct WC { template <class T> T operator()(const T &x) const { return x * x * x - static_cast<T>(2) * x + static_cast<T>(1) / static_cast<T>(2); } };  // x^3 - 2x + 1/2
+static const std::vector<i64> &stateless_coeffs(i64 k) {  // numerators over 2
+  static const std::vector<i64> a{2, 0, 2}, b{0, 2}, cc{1, -4, 0, 2}, none;
+  return k == 1 ? a : k == 2 ? b : k == 3 ? cc : none;
+}
+template <size_t n, class F, class S1, class S2>
+static auto integ(i64 k, const F &f, const S1 &m1, const S2 &m2) {
+  switch (k) {
+    case 1: return bspline::integration::integrate<n>(WA{}, m1, m2);
+    case 2: return bspline::integration::integrate<n>(WB{}, m1, m2);
+    case 3: return bspline::integration::integrate<n>(WC{}, m1, m2);
+    default: return bspline::integration::integrate<n>(f, m1, m2);
+  }
+}
+
 template <class T, size_t o1, size_t o2, size_t n>
-static void quad_T(const QuadC &c, vf::Obs &o) {
+static void quad_T(const QuadC &c0, vf::Obs &o) {
+  QuadC c = c0;
+  if (c.stateless < 0 || c.stateless > 3) c.stateless = 0;
+  if (c.stateless) { c.f = stateless_coeffs(c.stateless); c.fden = 2; o.cls("weight:stateless-functor"); } else o.cls("weight:capturing-lambda");
+  if (c.prelude) {
+    // the same template instantiation is first used on another grid with the same number of points, which dies before the real one is built
+    o.cls("prelude:other-grid-of-equal-size-first");
+    GridC g0 = c.g;
+    g0.off = c.g.off + 1; for (size_t i = 0; i < g0.gaps.size(); i++) g0.gaps[i] = c.g.gaps[g0.gaps.size() - 1 - i] + (i64)(i % 2);
+    auto pg = make_grid<T>(g0);
+    const auto p1 = make_spline<T, o1>(pg, c.m1);
+    const auto p2 = make_spline<T, o2>(pg, c.m2);
+    std::vector<T> fp;
+    for (auto v : c.f) fp.push_back(mk<T>(v, c.fden < 1 ? 1 : c.fden));
+    if (fp.empty()) fp.push_back(mk<T>(1));
+    auto fl = [&fp](const T &x) { T s = fp.back(); for (size_t k = fp.size() - 1; k-- > 0;) s = s * x + fp[k]; return s; };
+    (void)integ<n>(c.stateless, fl, p1, p2);
+  }
   auto grid = make_grid<T>(c.g);
   const auto m1 = make_spline<T, o1>(grid, c.m1);
   auto grid2 = make_grid<T>(c.g);  // same points, separately constructed storage
@@ -55,7 +92,7 @@ static void quad_T(const QuadC &c, vf::Obs &o) {
   if (fT.empty()) { fT.push_back(mk<T>(1)); fpoly.push_back(R(1)); }
   const size_t d = fT.size() - 1;
   auto f = [&fT](const T &x) { T s = fT.back(); for (size_t k = fT.size() - 1; k-- > 0;) s = s * x + fT[k]; return s; };
-  T lib = bspline::integration::integrate<n>(f, m1, m2);
+  T lib = integ<n>(c.stateless, f, m1, m2);
   R got = exact(lib);
 
   // set model of the common intervals
@@ -116,7 +153,7 @@ static void quad_T(const QuadC &c, vf::Obs &o) {
       r1.num.clear(); r1.zmask = 0;
       for (size_t k = 0; k <= o1; k++) { R v = c.m1.coeff(o1, j - (size_t)c.m1.s, k) * R(c.m1.cden < 1 ? 1 : c.m1.cden); r1.num.push_back(v.get_num().get_si()); }
       auto piece = make_spline<T, o1>(grid, r1);
-      sum += exact(bspline::integration::integrate<n>(f, piece, m2));
+      sum += exact(integ<n>(c.stateless, f, piece, m2));
     }
     VCHECK(o, absr(sum - got) <= 2 * tol, "integral is not additive over single-interval restrictions of m1: " << sum.get_d() << " vs " << got.get_d());
   }
@@ -164,6 +201,8 @@ int main(int argc, char **argv) {
     int d = (int)pick(0, 3);
     c.fden = one_of<i64>({1, 2, 4});
     for (int k = 0; k <= d; k++) c.f.push_back(k == d ? (chance(50) ? pick(1, 6) : -pick(1, 6)) : pick(-6, 6));
+    if (chance(45)) { c.stateless = pick(1, 3); c.f = stateless_coeffs(c.stateless); c.fden = 2; }
+    c.prelude = chance(40);
     return c;
   });
   vf::add_sub<QuadC>("quadrature", 4000, gen, check_quad);
